@@ -379,6 +379,13 @@ impl Env {
         self.unlocked
     }
 
+    /// Whether this process was started by redo-unlocked to build targets
+    /// out-of-band on behalf of an enclosing target's dependency check.
+    #[inline]
+    pub fn is_no_oob(&self) -> bool {
+        self.no_oob
+    }
+
     /// If file locking is broken, update the environment accordingly.
     pub(crate) fn mark_locks_broken(&mut self) {
         env::set_var(ENV_LOCKS_BROKEN, "1");
